@@ -97,12 +97,16 @@ func runConc(seed int64, rounds int) int {
 			}
 			return c, v, ok
 		}
+		var sharedRels []ecs.Relation
 		jobs := []job{
 			{"Filter1 shared", func() (int, int, bool) { return sumQ1(fA.Query()) }},
 			{"Filter2 shared", func() (int, int, bool) { return sumQ2(fAB.Query()) }},
 			{"Filter2 rel per query p0", func() (int, int, bool) { return sumQR(fRel.Query(ecs.RelIdx(1, parents[0])), parents[0], true) }},
 			{"Filter2 rel per query p2", func() (int, int, bool) { return sumQR(fRel.Query(ecs.RelIdx(1, parents[2])), parents[2], true) }},
 			{"Filter2 rel fixed", func() (int, int, bool) { return sumQR(fRelFixed.Query(), parents[0], true) }},
+			// one caller-owned slice of type-based targets (Rel[C]) shared by all goroutines: the
+			// conversion to component IDs must not write into it
+			{"Filter2 rel shared Rel[C] slice", func() (int, int, bool) { return sumQR(fRel.Query(sharedRels...), parents[0], true) }},
 			{"Filter1 cached", func() (int, int, bool) { return sumQ1(fCached.Query()) }},
 			{"Filter2 cached rel", func() (int, int, bool) { return sumQR(fCachedRel.Query(), parents[1], true) }},
 			{"Unsafe", func() (int, int, bool) {
@@ -128,6 +132,7 @@ func runConc(seed int64, rounds int) int {
 		// after a new archetype appears, the first use of an uncached filter recomputes its cache
 		phases := 2
 		for phase := 0; phase < phases; phase++ {
+			sharedRels = []ecs.Relation{ecs.Rel[C4](parents[0])}
 			if phase == 1 {
 				ecs.NewMap3[C0, C1, C7](w).NewEntity(&C0{V: 99}, &C1{V: 1, W: ^int64(1)}, &C7{V: 1})
 				// fresh filters whose very first use is concurrent
@@ -137,16 +142,22 @@ func runConc(seed int64, rounds int) int {
 			// sequential expectation
 			want := make([][2]int, len(jobs))
 			for i, j := range jobs {
-				if phase == 1 && (i == 0 || i == 1 || i == 8) {
+				if phase == 1 && (i == 0 || i == 1 || i == 9) {
 					// filters replaced: expectation from an equivalent fresh filter
 					switch i {
-					case 0, 8:
+					case 0, 9:
 						c, v, _ := sumQ1(ecs.NewFilter1[C0](w).Query())
 						want[i] = [2]int{c, v}
 					case 1:
 						c, v, _ := sumQ2(ecs.NewFilter2[C0, C1](w).Query())
 						want[i] = [2]int{c, v}
 					}
+					continue
+				}
+				if i == 5 {
+					// the shared slice must see its FIRST use concurrently: expectation from a fresh one
+					c, v, _ := sumQR(fRel.Query(ecs.Rel[C4](parents[0])), parents[0], true)
+					want[i] = [2]int{c, v}
 					continue
 				}
 				c, v, _ := j.count()
